@@ -438,3 +438,207 @@ spec fn remap_ok(m: Map<u32, ZddRef>, src: Seq<ZddNode>, dst: Seq<ZddNode>) -> b
         &&& forall|s: Set<u32>| #[trigger] mem(dst, m[id], s) == mem(src, ZddRef::Node(id), s)
     }
 }
+
+// ============================================================================================
+// Canonicity (C07): in a table satisfying the invariant, two references denoting the same family are equal
+// ============================================================================================
+spec fn no_dup(nodes: Seq<ZddNode>) -> bool {
+    forall|i: int, j: int| 0 <= i < nodes.len() && 0 <= j < nodes.len() && nodes[i] == nodes[j] ==> i == j
+}
+
+// a canonical member of a non-Empty reference: always take the hi branch
+spec fn wit(nodes: Seq<ZddNode>, r: ZddRef) -> Set<u32>
+    decreases rank(r)
+{
+    match r {
+        ZddRef::Node(id) => {
+            if (id as int) < nodes.len() && valid(nodes[id as int].lo, id as int) && valid(nodes[id as int].hi, id as int) {
+                wit(nodes, nodes[id as int].hi).insert(nodes[id as int].var)
+            } else { Set::<u32>::empty() }
+        }
+        _ => Set::<u32>::empty(),
+    }
+}
+
+proof fn lemma_nonempty(nodes: Seq<ZddNode>, r: ZddRef)
+    requires nodes_ok(nodes), valid(r, nodes.len() as int), r != ZddRef::Empty,
+    ensures mem(nodes, r, wit(nodes, r)), r is Node ==> wit(nodes, r).contains(nodes[r->Node_0 as int].var),
+    decreases rank(r)
+{
+    match r {
+        ZddRef::Node(id) => {
+            let nd = nodes[id as int];
+            assert(node_ok(nodes, id as int));
+            lemma_nonempty(nodes, nd.hi);
+            let w = wit(nodes, nd.hi);
+            if w.contains(nd.var) { lemma_elems_ge_top(nodes, nd.hi, w, nd.var); }
+            assert(w.insert(nd.var).remove(nd.var) =~= w);
+        }
+        _ => {}
+    }
+}
+
+proof fn lemma_canonical(nodes: Seq<ZddNode>, r1: ZddRef, r2: ZddRef)
+    requires nodes_ok(nodes), no_dup(nodes), valid(r1, nodes.len() as int), valid(r2, nodes.len() as int),
+        forall|s: Set<u32>| mem(nodes, r1, s) == mem(nodes, r2, s),
+    ensures r1 == r2,
+    decreases rank(r1) + rank(r2)
+{
+    if r1 != ZddRef::Empty { lemma_nonempty(nodes, r1); assert(mem(nodes, r2, wit(nodes, r1))); }
+    if r2 != ZddRef::Empty { lemma_nonempty(nodes, r2); assert(mem(nodes, r1, wit(nodes, r2))); }
+    match (r1, r2) {
+        (ZddRef::Node(i1), ZddRef::Node(i2)) => {
+            let n1 = nodes[i1 as int]; let n2 = nodes[i2 as int];
+            assert(node_ok(nodes, i1 as int)); assert(node_ok(nodes, i2 as int));
+            if n1.var < n2.var {
+                lemma_elems_ge_top(nodes, r2, wit(nodes, r1), n1.var);
+            } else if n2.var < n1.var {
+                lemma_elems_ge_top(nodes, r1, wit(nodes, r2), n2.var);
+            } else {
+                let v = n1.var;
+                assert forall|s: Set<u32>| mem(nodes, n1.lo, s) == mem(nodes, n2.lo, s) by {
+                    if mem(nodes, n1.lo, s) {
+                        if s.contains(v) { lemma_elems_ge_top(nodes, n1.lo, s, v); }
+                        assert(mem(nodes, r1, s)); assert(mem(nodes, r2, s));
+                    }
+                    if mem(nodes, n2.lo, s) {
+                        if s.contains(v) { lemma_elems_ge_top(nodes, n2.lo, s, v); }
+                        assert(mem(nodes, r2, s)); assert(mem(nodes, r1, s));
+                    }
+                }
+                assert forall|t: Set<u32>| mem(nodes, n1.hi, t) == mem(nodes, n2.hi, t) by {
+                    let s = t.insert(v);
+                    if mem(nodes, n1.hi, t) {
+                        if t.contains(v) { lemma_elems_ge_top(nodes, n1.hi, t, v); }
+                        assert(s.remove(v) =~= t);
+                        assert(mem(nodes, r1, s)); assert(mem(nodes, r2, s));
+                        if mem(nodes, n2.lo, s) { lemma_elems_ge_top(nodes, n2.lo, s, v); }
+                    }
+                    if mem(nodes, n2.hi, t) {
+                        if t.contains(v) { lemma_elems_ge_top(nodes, n2.hi, t, v); }
+                        assert(s.remove(v) =~= t);
+                        assert(mem(nodes, r2, s)); assert(mem(nodes, r1, s));
+                        if mem(nodes, n1.lo, s) { lemma_elems_ge_top(nodes, n1.lo, s, v); }
+                    }
+                }
+                lemma_canonical(nodes, n1.lo, n2.lo);
+                lemma_canonical(nodes, n1.hi, n2.hi);
+                assert(n1 == n2);
+            }
+        }
+        (ZddRef::Node(i1), ZddRef::Base) => {
+            assert(wit(nodes, r1) =~= Set::<u32>::empty());
+        }
+        (ZddRef::Base, ZddRef::Node(i2)) => {
+            assert(wit(nodes, r2) =~= Set::<u32>::empty());
+        }
+        _ => {}
+    }
+}
+
+proof fn lemma_union_cases(n0: Seq<ZddNode>, a: ZddRef, b: ZddRef, s: Set<u32>)
+    requires nodes_ok(n0), valid(a, n0.len() as int), valid(b, n0.len() as int),
+    ensures
+        match (a, b) {
+            (ZddRef::Node(ia), ZddRef::Node(ib)) => {
+                let na = n0[ia as int]; let nb = n0[ib as int];
+                if na.var < nb.var { (mem(n0, a, s) || mem(n0, b, s)) == ((mem(n0, na.lo, s) || mem(n0, b, s)) || (s.contains(na.var) && mem(n0, na.hi, s.remove(na.var)))) }
+                else if na.var > nb.var { (mem(n0, a, s) || mem(n0, b, s)) == ((mem(n0, a, s) || mem(n0, nb.lo, s)) || (s.contains(nb.var) && mem(n0, nb.hi, s.remove(nb.var)))) }
+                else { (mem(n0, a, s) || mem(n0, b, s)) ==
+                       ((mem(n0, na.lo, s) || mem(n0, nb.lo, s)) || (s.contains(na.var) && (mem(n0, na.hi, s.remove(na.var)) || mem(n0, nb.hi, s.remove(na.var))))) }
+            }
+            (ZddRef::Node(ia), ZddRef::Base) => {
+                let na = n0[ia as int];
+                (mem(n0, a, s) || mem(n0, b, s)) == ((mem(n0, na.lo, s) || mem(n0, ZddRef::Base, s)) || (s.contains(na.var) && mem(n0, na.hi, s.remove(na.var))))
+            }
+            (ZddRef::Base, ZddRef::Node(ib)) => {
+                let nb = n0[ib as int];
+                (mem(n0, a, s) || mem(n0, b, s)) == ((mem(n0, ZddRef::Base, s) || mem(n0, nb.lo, s)) || (s.contains(nb.var) && mem(n0, nb.hi, s.remove(nb.var))))
+            }
+            _ => true,
+        }
+{
+    if let ZddRef::Node(ia) = a { assert(node_ok(n0, ia as int)); }
+    if let ZddRef::Node(ib) = b { assert(node_ok(n0, ib as int)); }
+}
+
+// ============================================================================================
+// Operation caches (memo tables).  op: 0 = union, 1 = intersection, 2 = difference
+// ============================================================================================
+spec fn bop(op: int, x: bool, y: bool) -> bool { if op == 0 { x || y } else if op == 1 { x && y } else { x && !y } }
+spec fn topc(op: int, ta: int, tb: int, tr: int) -> bool { if op == 2 { tr >= ta } else { tr >= imin(ta, tb) } }
+spec fn res_ok(op: int, nodes: Seq<ZddNode>, a: ZddRef, b: ZddRef, r: ZddRef) -> bool {
+    &&& valid(a, nodes.len() as int) && valid(b, nodes.len() as int) && valid(r, nodes.len() as int)
+    &&& topc(op, top(nodes, a), top(nodes, b), top(nodes, r))
+    &&& forall|s: Set<u32>| #[trigger] mem(nodes, r, s) == bop(op, mem(nodes, a, s), mem(nodes, b, s))
+}
+#[verifier::opaque]
+spec fn cache_ok_bin(op: int, c: Map<(ZddRef, ZddRef), ZddRef>, nodes: Seq<ZddNode>) -> bool {
+    forall|a: ZddRef, b: ZddRef| #[trigger] c.contains_key((a, b)) ==> res_ok(op, nodes, a, b, c[(a, b)])
+}
+#[verifier::opaque]
+spec fn cache_ok_count(c: Map<ZddRef, usize>, nodes: Seq<ZddNode>) -> bool {
+    forall|r: ZddRef| #[trigger] c.contains_key(r) ==> valid(r, nodes.len() as int) && c[r] as nat == card(nodes, r)
+}
+
+proof fn lemma_cb_empty(op: int, nodes: Seq<ZddNode>)
+    ensures cache_ok_bin(op, Map::<(ZddRef, ZddRef), ZddRef>::empty(), nodes)
+{ reveal(cache_ok_bin); }
+
+proof fn lemma_cb_get(op: int, c: Map<(ZddRef, ZddRef), ZddRef>, nodes: Seq<ZddNode>, a: ZddRef, b: ZddRef)
+    requires cache_ok_bin(op, c, nodes), c.contains_key((a, b)), 0 <= op <= 2,
+    ensures res_ok(op, nodes, a, b, c[(a, b)]),
+        op == 0 ==> forall|s: Set<u32>| #[trigger] mem(nodes, c[(a, b)], s) == (mem(nodes, a, s) || mem(nodes, b, s)),
+        op == 1 ==> forall|s: Set<u32>| #[trigger] mem(nodes, c[(a, b)], s) == (mem(nodes, a, s) && mem(nodes, b, s)),
+        op == 2 ==> forall|s: Set<u32>| #[trigger] mem(nodes, c[(a, b)], s) == (mem(nodes, a, s) && !mem(nodes, b, s)),
+{ reveal(cache_ok_bin); }
+
+proof fn lemma_cb_insert(op: int, c: Map<(ZddRef, ZddRef), ZddRef>, nodes: Seq<ZddNode>, a: ZddRef, b: ZddRef, r: ZddRef)
+    requires cache_ok_bin(op, c, nodes), 0 <= op <= 2,
+        valid(a, nodes.len() as int), valid(b, nodes.len() as int), valid(r, nodes.len() as int),
+        topc(op, top(nodes, a), top(nodes, b), top(nodes, r)),
+        forall|s: Set<u32>| #[trigger] mem(nodes, r, s) == bop(op, mem(nodes, a, s), mem(nodes, b, s)),
+    ensures cache_ok_bin(op, c.insert((a, b), r), nodes),
+{ reveal(cache_ok_bin); }
+
+proof fn lemma_cb_frame(op: int, c: Map<(ZddRef, ZddRef), ZddRef>, n1: Seq<ZddNode>, n2: Seq<ZddNode>)
+    requires cache_ok_bin(op, c, n1), frame(n1, n2),
+    ensures cache_ok_bin(op, c, n2),
+{
+    reveal(cache_ok_bin);
+    assert forall|a: ZddRef, b: ZddRef| #[trigger] c.contains_key((a, b)) implies res_ok(op, n2, a, b, c[(a, b)]) by {
+        assert(res_ok(op, n1, a, b, c[(a, b)]));
+        assert(top(n2, c[(a, b)]) == top(n1, c[(a, b)])); assert(top(n2, a) == top(n1, a)); assert(top(n2, b) == top(n1, b));
+        assert forall|s: Set<u32>| #[trigger] mem(n2, c[(a, b)], s) == bop(op, mem(n2, a, s), mem(n2, b, s)) by {
+            assert(mem(n2, c[(a, b)], s) == mem(n1, c[(a, b)], s));
+            assert(mem(n2, a, s) == mem(n1, a, s)); assert(mem(n2, b, s) == mem(n1, b, s));
+        }
+    }
+}
+
+proof fn lemma_cc_frame(c: Map<ZddRef, usize>, n1: Seq<ZddNode>, n2: Seq<ZddNode>)
+    requires cache_ok_count(c, n1), frame(n1, n2),
+    ensures cache_ok_count(c, n2),
+{
+    reveal(cache_ok_count);
+    assert forall|r: ZddRef| #[trigger] c.contains_key(r) implies valid(r, n2.len() as int) && c[r] as nat == card(n2, r) by {
+        lemma_card_frame(n1, n2, r);
+    }
+}
+
+proof fn lemma_pwo_frame(c: Map<ZddRef, ZddRef>, n1: Seq<ZddNode>, n2: Seq<ZddNode>, var: u32)
+    requires pwo_cache_ok(c, n1, var), frame(n1, n2),
+    ensures pwo_cache_ok(c, n2, var),
+{
+    assert forall|k: ZddRef| #[trigger] c.contains_key(k) implies ({
+        &&& valid(k, n2.len() as int) && valid(c[k], n2.len() as int)
+        &&& top(n2, c[k]) >= imin(top(n2, k), var as int)
+        &&& forall|s: Set<u32>| #[trigger] mem(n2, c[k], s) == (mem(n2, k, s) || (s.contains(var) && mem(n2, k, s.remove(var))))
+    }) by {
+        assert(top(n2, c[k]) == top(n1, c[k])); assert(top(n2, k) == top(n1, k));
+        assert forall|s: Set<u32>| #[trigger] mem(n2, c[k], s) == (mem(n2, k, s) || (s.contains(var) && mem(n2, k, s.remove(var)))) by {
+            assert(mem(n2, c[k], s) == mem(n1, c[k], s)); assert(mem(n2, k, s) == mem(n1, k, s));
+            assert(mem(n2, k, s.remove(var)) == mem(n1, k, s.remove(var)));
+        }
+    }
+}
